@@ -591,28 +591,41 @@ class Models:
         if op == "%" and is_strlike(a):
             if all_concrete(a, b):
                 return native(lambda: a % b)
-            if not isinstance(a, str):
-                raise Unsupported("% formatting with a symbolic format string")
             vals = list(b) if isinstance(b, tuple) else [b]
+            fc = chars(a)
+            T = lambda c, ch: (c == ch) if isinstance(c, str) else self.I.truth(W, ch_eq(c, ch))
             out, i, k = [], 0, 0
-            while i < len(a):
-                if a[i] == "%" and i + 1 < len(a):
-                    c = a[i + 1]
-                    if c == "%":
+            while i < len(fc):
+                if T(fc[i], "%"):
+                    if i + 1 >= len(fc):
+                        pyraise(ValueError, "incomplete format")
+                    c = fc[i + 1]
+                    if T(c, "%"):
                         out.append("%")
-                    elif c in "srd":
+                    elif T(c, "s") or T(c, "r") or T(c, "d") or T(c, "x") or T(c, "X") or T(c, "o") or T(c, "i"):
                         if k >= len(vals):
                             pyraise(TypeError, "not enough arguments for format string")
-                        r = self.py_repr(W, vals[k]) if c == "r" else self.py_str(W, vals[k])
+                        if not (T(c, "s") or T(c, "r")):
+                            if not isinstance(vals[k], (int, float, SInt)) or isinstance(vals[k], bool):
+                                pyraise(TypeError, "%d format: a real number is required")
+                            if not T(c, "d") and not T(c, "i"):
+                                raise Unsupported("% conversion to another base with symbolic operands")
+                        r = self.py_repr(W, vals[k]) if T(c, "r") else self.py_str(W, vals[k])
                         if isinstance(r, Redirect):
                             raise Unsupported("% formatting of an object with __str__")
                         out.extend(chars(r))
                         k += 1
-                    else:
+                    elif isinstance(c, str) and c in "0123456789.-+ #*(lhLceEfFgGa":
                         raise Unsupported(f"% conversion {c!r} with symbolic operands")
+                    else:
+                        # a character that is no conversion type (the alphabets of the checks hold no flag / width characters)
+                        for ch in "0123456789.-+ #*(lhLceEfFgGa":
+                            if T(c, ch):
+                                raise Unsupported(f"% conversion {ch!r} with symbolic operands")
+                        pyraise(ValueError, "unsupported format character")
                     i += 2
                 else:
-                    out.append(a[i])
+                    out.append(fc[i])
                     i += 1
             if k != len(vals):
                 pyraise(TypeError, "not all arguments converted during string formatting")
